@@ -547,7 +547,8 @@ def _masked(rng, n):
 
 
 def gen_c08(rng, quick=True):
-    kind = rng.choices(["kk", "zhit", "drt", "fit"], [30, 30, 22, 18])[0]
+    kind = rng.choices(["kk", "zhit", "drt", "fit"], [28, 26, 28, 18])[0]
+    lm_low_noise = False
     logf = rng.choice([[5, 0], [4, -1], [5, -1]])
     if kind == "kk":
         n = rng.randint(14, 24 if quick else 36)
@@ -593,13 +594,14 @@ def gen_c08(rng, quick=True):
         stochastic = False
     elif kind == "drt":
         n = rng.randint(12, 22)
-        m = rng.choice(["tr-nnls", "tr-nnls", "lm", "bht", "mrq-fit"])
+        m = rng.choices(["tr-nnls", "lm", "bht", "mrq-fit"], [25, 40, 20, 15])[0]
         cdc = rng.choice(LADDERS[:3])
         stochastic = False
         if m == "tr-nnls":
             kwargs = {"method": m, "mode": rng.choice(["real", "imaginary", "complex"]), "lambda_value": rng.choice([-1.0, -2.0, 1e-3])}
         elif m == "lm":
-            kwargs = {"method": m, "model_order": rng.choice([0, 0, 2, 3]), "model_order_method": rng.choice(["matrix_rank", "pseudo_chisqr"])}
+            kwargs = {"method": m, "model_order": rng.choice([0, 0, 0, 2, 3]), "model_order_method": rng.choice(["matrix_rank", "pseudo_chisqr", "pseudo_chisqr"])}
+            lm_low_noise = rng.random() < 0.6
         elif m == "bht":
             kwargs = {"method": m, "num_attempts": rng.randint(1, 3), "num_samples": 10,
                       "maximum_symmetry": rng.choice([0.5, 0.5, 0.2, 0.05]),
@@ -624,7 +626,8 @@ def gen_c08(rng, quick=True):
     wl["kind"] = kind
     wl["stochastic"] = stochastic
     wl["data"] = {
-        "cdc": cdc, "logf": logf, "n": n, "noise_pct": rng.choice([0.0, 0.01, 0.1, 0.5]),
+        "cdc": cdc, "logf": logf, "n": n,
+        "noise_pct": 0.01 if (kind == "drt" and wl["kwargs"].get("method") == "lm" and lm_low_noise) else rng.choice([0.0, 0.01, 0.1, 0.5]),
         "noise_seed": rng.randrange(10**6), "mask": _masked(rng, n), "order": "desc",
     }
     return wl
